@@ -20,13 +20,32 @@
 (* moves the leadership from the initial coordinator to NewLead, one node's view at a  *)
 (* time (a leadership change propagating through gossip).                              *)
 (*                                                                                    *)
-(* Defects: "NonAtomicPublish" (the code as it is): the uniqueness check (ActorExists) *)
-(* and the publication (plain PutActor, after the actor has been started) are two      *)
-(* registry operations.  Repair: the name is reserved atomically (PutActorIfAbsent)    *)
-(* before the actor is started.                                                        *)
+(* A view may also flag NO coordinator (lead[n] = NoNode): the node sees peers but no   *)
+(* flag, or - n \in Solo - its view is exactly [self] (joining / minority node).  Then  *)
+(* spawnSingletonOnLeader answers ErrLeaderNotFound, which the retrier retries.          *)
+(*                                                                                    *)
+(* Threads of kind "reloc" run the relocation of the singleton by the relocation worker *)
+(* (actor/relocation_worker.go recreateSingletonFromWire) on their node, for a record   *)
+(* left by the departed node "D"; several such threads = duplicate / re-run items:      *)
+(*   RG  gating read GetActor: entry on a survivor -> skip; error -> the item fails      *)
+(*   RR  RemoveActor (unconditional), then SpawnSingleton (M ...)                        *)
+(* Cluster reads (Members, ActorExists, GetActor) may fail with a read-quorum error      *)
+(* (MaxFaults, only for calls that run on their origin node): the retrier retries.       *)
+(*                                                                                    *)
+(* Defects (the code as it is = CODE; {} = repaired design):                            *)
+(*  "NonAtomicPublish" CODE: the uniqueness check (ActorExists) and the publication     *)
+(*      (plain PutActor, after the actor has been started) are two registry operations. *)
+(*      Repair: the name is reserved atomically (PutActorIfAbsent) before the start.    *)
+(*  "BlindRemove" CODE: recreateSingletonFromWire removes the record by key after its   *)
+(*      gating read; a record a survivor published in between is removed.  Repair:      *)
+(*      remove only the record the gating read saw.                                     *)
+(*  "QuorumMissFallsThrough" (NOT the code; seeded-mutant witness): a failed gating     *)
+(*      read is treated like "not found".                                               *)
+(*  "SoloSelfLeader" (NOT the code; seeded-mutant witness): a node whose view is [self] *)
+(*      without coordinator flag spawns locally.                                        *)
 EXTENDS Integers, Sequences, FiniteSets, TLC
 
-CONSTANTS Nodes, Threads, Org, Lead0, NewLead, MaxChanges, MaxHops, MaxTries, Defects
+CONSTANTS Nodes, Threads, Org, Kind, Lead0, Solo, Rec0, NewLead, MaxChanges, MaxHops, MaxTries, MaxFaults, Defects
 
 NoNode == "-"
 NoThread == "-"
@@ -38,35 +57,45 @@ VARIABLES lead,     \* [Nodes -> Nodes]  coordinator in the view of each node
           wait,     \* [Nodes -> SUBSET Threads]
           th,       \* [Threads -> [pc, frames, tries, res]]
           changes,  \* view changes left
+          faults,   \* injected read failures left
+          badRemove,\* a record naming a node with a running instance was removed by another node
           last
 
-vars == <<lead, rec, inst, flight, wait, th, changes, last>>
-core == <<lead, rec, inst, flight, wait, th, changes>>
+vars == <<lead, rec, inst, flight, wait, th, changes, faults, badRemove, last>>
+core == <<lead, rec, inst, flight, wait, th, changes, faults, badRemove>>
 Has(d) == d \in Defects
 
 Cur(x) == x.frames[Len(x.frames)]
 
 Init == /\ lead = Lead0
-        /\ rec = NoNode
+        /\ rec = Rec0
         /\ inst = [n \in Nodes |-> 0]
         /\ flight = [n \in Nodes |-> NoThread]
         /\ wait = [n \in Nodes |-> {}]
-        /\ th = [t \in Threads |-> [pc |-> "call", frames |-> <<Org[t]>>, tries |-> 0, res |-> "-"]]
-        /\ changes = MaxChanges
+        /\ th = [t \in Threads |-> [pc |-> "call", frames |-> <<Org[t]>>, tries |-> 0, res |-> "-", seen |-> NoNode]]
+        /\ changes = MaxChanges /\ faults = MaxFaults /\ badRemove = FALSE
         /\ last = [t |-> "-", a |-> "init", pc |-> "-", at |-> NoNode, n |-> NoNode, m |-> NoNode]
 
-S0 == [lead |-> lead, rec |-> rec, inst |-> inst, flight |-> flight, wait |-> wait, th |-> th, changes |-> changes]
+S0 == [lead |-> lead, rec |-> rec, inst |-> inst, flight |-> flight, wait |-> wait, th |-> th, changes |-> changes, faults |-> faults,
+       badRemove |-> badRemove]
 Commit(s, t, a) == /\ lead' = s.lead /\ rec' = s.rec /\ inst' = s.inst /\ flight' = s.flight /\ wait' = s.wait /\ th' = s.th
-                   /\ changes' = s.changes
+                   /\ changes' = s.changes /\ faults' = s.faults /\ badRemove' = s.badRemove
                    /\ last' = [t |-> t, a |-> a, pc |-> s.th[t].pc, at |-> Cur(s.th[t]), n |-> NoNode, m |-> NoNode]
 
 \* the call (all frames) returns
 Finish(s, t) == [s EXCEPT !.th[t].pc = "done"]
 
+\* a retryable failure (ErrLeaderNotFound, read-quorum error) inside retrySpawnSingleton: next attempt or give up
+RetryOrFail(s, t) ==
+  IF Len(s.th[t].frames) > 1 THEN [s EXCEPT !.th[t].pc = "cut"]      \* nested retry loops of remote frames are not modelled
+  ELSE IF s.th[t].tries < MaxTries THEN [s EXCEPT !.th[t].tries = @ + 1, !.th[t].pc = "M"]
+  ELSE Finish(s, t)
+
 \* what a thread does when spawnSingletonOnLocal returned r on the node of its top frame
 Cont(s, t, r) ==
-  IF r = "ok" THEN Finish(s, t)
-  ELSE [s EXCEPT !.th[t].pc = "AG"]                                   \* ErrActorAlreadyExists -> handleSingletonNameConflict
+  CASE r = "ok" -> Finish(s, t)
+    [] r = "fault" -> RetryOrFail(s, t)
+    [] OTHER -> [s EXCEPT !.th[t].pc = "AG"]                           \* ErrActorAlreadyExists -> handleSingletonNameConflict
 
 EndFlight(s, t, r) ==
   LET m == Cur(s.th[t])
@@ -78,14 +107,35 @@ Woken == {w \in Threads : th[w].pc = "woken"}
 At(t, pc) == th[t].pc = pc /\ Woken = {}
 
 Call(t) == /\ At(t, "call")
-           /\ Commit([S0 EXCEPT !.th[t].pc = "M"], t, "call")
+           /\ Commit([S0 EXCEPT !.th[t].pc = IF Kind[t] = "reloc" THEN "RG" ELSE "M"], t, "call")
+
+Local(t) == Len(th[t].frames) = 1
+
+\* recreateSingletonFromWire: gating read
+RecreateGet(t) ==
+  /\ At(t, "RG")
+  /\ Commit(IF rec \in Nodes THEN Finish(S0, t)                                          \* already re-created on a survivor
+            ELSE [S0 EXCEPT !.th[t].pc = "RR", !.th[t].seen = rec], t, "RG")
+RecreateGetFault(t) ==
+  /\ At(t, "RG") /\ faults > 0
+  /\ Commit(IF Has("QuorumMissFallsThrough") THEN [S0 EXCEPT !.faults = @ - 1, !.th[t].pc = "RR", !.th[t].seen = NoNode]
+            ELSE Finish([S0 EXCEPT !.faults = @ - 1], t), t, "RGfail")
+\* RemoveActor, then SpawnSingleton
+RecreateRemove(t) ==
+  /\ At(t, "RR")
+  /\ LET c == Cur(th[t])
+         blind == Has("BlindRemove") \/ Has("QuorumMissFallsThrough")
+     IN Commit(IF blind \/ rec = th[t].seen
+               THEN [S0 EXCEPT !.badRemove = @ \/ (rec \in Nodes /\ rec # c /\ inst[rec] > 0), !.rec = NoNode, !.th[t].pc = "M"]
+               ELSE Finish(S0, t), t, "RR")                                                \* repaired: somebody re-established it meanwhile
 
 \* spawnSingletonOnLeader: Members, leader pick
 Members(t) ==
   /\ At(t, "M")
   /\ LET c == Cur(th[t])
-         l == lead[c]
-     IN Commit(IF l = c
+         l == IF lead[c] = NoNode /\ c \in Solo /\ Has("SoloSelfLeader") THEN c ELSE lead[c]
+     IN Commit(IF l = NoNode THEN RetryOrFail(S0, t)                                       \* ErrLeaderNotFound
+               ELSE IF l = c
                THEN (IF flight[c] # NoThread
                      THEN [S0 EXCEPT !.th[t].pc = "wait", !.wait[c] = @ \cup {t}]
                      ELSE [S0 EXCEPT !.flight[c] = t, !.th[t].pc = "AE"])
@@ -119,6 +169,14 @@ Conflict(t) ==
             ELSE IF th[t].tries < MaxTries THEN [S0 EXCEPT !.th[t].tries = @ + 1, !.th[t].pc = "M"]
             ELSE Finish(S0, t), t, "AG")
 
+\* read-quorum failures of the cluster reads (calls running on their origin node only)
+MembersFault(t) == /\ At(t, "M") /\ faults > 0 /\ Local(t)
+                   /\ Commit(RetryOrFail([S0 EXCEPT !.faults = @ - 1], t), t, "Mfail")
+ExistsFault(t) == /\ At(t, "AE") /\ faults > 0 /\ Local(t) /\ \A w \in wait[Cur(th[t])] : Len(th[w].frames) = 1
+                  /\ Commit(EndFlight([S0 EXCEPT !.faults = @ - 1], t, "fault"), t, "AEfail")
+ConflictFault(t) == /\ At(t, "AG") /\ faults > 0 /\ Local(t)
+                    /\ Commit(RetryOrFail([S0 EXCEPT !.faults = @ - 1], t), t, "AGfail")
+
 Wake(t) ==
   /\ th[t].pc = "woken"
   /\ Commit(Cont(S0, t, th[t].res), t, "wake")
@@ -128,9 +186,10 @@ View(n, m) ==
   /\ Woken = {} /\ changes > 0 /\ lead[n] # m /\ m = NewLead
   /\ lead' = [lead EXCEPT ![n] = m] /\ changes' = changes - 1
   /\ last' = [t |-> "env", a |-> "view", pc |-> "-", at |-> NoNode, n |-> n, m |-> m]
-  /\ UNCHANGED <<rec, inst, flight, wait, th>>
+  /\ UNCHANGED <<rec, inst, flight, wait, th, faults, badRemove>>
 
 Step(t) == Call(t) \/ Members(t) \/ Exists(t) \/ PreStart(t) \/ Publish(t) \/ Conflict(t) \/ Wake(t)
+           \/ RecreateGet(t) \/ RecreateGetFault(t) \/ RecreateRemove(t) \/ MembersFault(t) \/ ExistsFault(t) \/ ConflictFault(t)
 Next == (\E t \in Threads : Step(t)) \/ (\E n, m \in Nodes : View(n, m))
 Spec == Init /\ [][Next]_vars
 
@@ -140,6 +199,8 @@ Running == {n \in Nodes : inst[n] > 0}
 OneSingleton == Cardinality(Running) <= 1 /\ \A n \in Nodes : inst[n] <= 1
 Quiescent == \A t \in Threads : th[t].pc \in {"done", "cut"}
 NoCut == \A t \in Threads : th[t].pc # "cut"
-TypeOK == /\ rec \in Nodes \cup {NoNode}
-          /\ \A t \in Threads : th[t].pc \in {"call", "M", "AE", "pre", "AP", "AG", "wait", "woken", "done", "cut"}
+\* a record owned by a live survivor is never removed by a non-owner
+NoForeignRemove == ~badRemove
+TypeOK == /\ rec \in Nodes \cup {NoNode, "D"}
+          /\ \A t \in Threads : th[t].pc \in {"call", "M", "AE", "pre", "AP", "AG", "RG", "RR", "wait", "woken", "done", "cut"}
 =============================================================================
